@@ -2,6 +2,7 @@ import Driver.SliceOps
 import Driver.Cache
 import Driver.VE
 import Driver.Stack
+import Driver.WQ
 
 def main (args : List String) : IO UInt32 := do
   match args with
@@ -10,4 +11,5 @@ def main (args : List String) : IO UInt32 := do
   | ["ve"] => Driver.VE.main; return 0
   | ["stack"] => Driver.Stack.main; return 0
   | ["stackconc"] => Driver.Stack.main; return 0
+  | ["wq"] => Driver.WQ.main; return 0
   | _ => IO.eprintln "usage: tvdriver <component> < trace"; return 2
